@@ -59,6 +59,8 @@ func dcgHandle(c map[string]J) map[string]J {
 		q = fmt.Sprintf("phrase(s(V1), %s).", input)
 	case "gen":
 		q = "phrase(s(V1), V2)."
+	case "direct":
+		q = fmt.Sprintf("phrase(%s, %s, V2).", jt.Render(c["body"]), input)
 	case "rem1", "rem2":
 		k := 1
 		if mode == "rem2" {
